@@ -82,6 +82,19 @@ Proof.
 Qed.
 Print Assumptions c17_search_is_successor.
 
+(* Side remark on "non-empty ring": if the replica points of the names that are ever added
+   do not collide, every member owns all of its ReplicaCount points, so a ring with at least
+   one member has points (with collisions a late-comer may own fewer points — in the extreme,
+   under an adversarial hash, none; the four sentences above hold regardless). *)
+Theorem c17_no_collision_owns_all_points : forall hash ops,
+  (forall a b, In (Add a) ops -> In (Add b) ops -> a <> b ->
+     forall p, In p (points hash a) -> ~ In p (points hash b)) ->
+  (forall n p, In n (nodes (run hash ops)) -> In p (points hash n) ->
+     circle_get p (circle (run hash ops)) = Some n) /\
+  (nodes (run hash ops) <> [] -> circle (run hash ops) <> []).
+Proof. intros hash ops H. split; [apply owns_all_points, H | apply members_have_points, H]. Qed.
+Print Assumptions c17_no_collision_owns_all_points.
+
 (* Non-vacuity.  With the code's own FNV-1a: the replica strings "n151-18" and "n2186-10"
    collide, so the rings below contain a point claimed by two members — the theorems above
    cover them; the ring is not empty, and a concrete lookup computes. *)
